@@ -87,16 +87,16 @@ func sdExtDrop(s *sim) {
 }
 
 type sdSnap struct {
-	state                   uint32
-	wsd, wsa, wsc, scp, t2  bool
-	pend, infl, ack, ret    int
-	down                    bool
-	cumAck, nextTSN         uint32
-	t2n                     uint
-	ackTO, t3TO             uint64
-	inflTSNs                map[uint32]bool
-	peerLast                uint32
-	maxPayload              uint32
+	state                  uint32
+	wsd, wsa, wsc, scp, t2 bool
+	pend, infl, ack, ret   int
+	down                   bool
+	cumAck, nextTSN        uint32
+	t2n                    uint
+	ackTO, t3TO            uint64
+	inflTSNs               map[uint32]bool
+	peerLast               uint32
+	maxPayload             uint32
 }
 
 func sdSnapshot(s *sim, side int) sdSnap {
@@ -508,15 +508,15 @@ func (sc sdScenario) label() string {
 }
 
 type sdStats struct {
-	mu                                   sync.Mutex
-	runs, decisions, fails, inapplicable int
-	faults                               [3]int
-	capped                               int
-	printed                              map[string]int
-	maxDecisions                         int
+	mu                                        sync.Mutex
+	runs, decisions, fails, inapplicable      int
+	faults                                    [3]int
+	capped                                    int
+	printed                                   map[string]int
+	maxDecisions                              int
 	bothClosedByProtocol, peerNeededTransport int
-	rejectedWrites                       int
-	foreign                              int
+	rejectedWrites                            int
+	foreign                                   int
 }
 
 func sdFailKey(line string) string {
